@@ -24,6 +24,7 @@ MAX_PROBES = 12
 
 GEN_INTENTS = {
     'base_type': 3, 'derived_type': 6, 'scaled_unit': 6, 'term_unit': 2,
+    'alias_unit': 2,
     'derive_unit': 3, 'plain_unit': 1, 'currency_reg': 2,
 }
 NOISE_INTENTS = ['dup_dimension', 'wrong_dim_term', 'dup_symbol',
